@@ -488,3 +488,29 @@ def inplace_updates(ctx: Ctx, f: FuncInfo, attr: str) -> list[tuple[ast.stmt, st
                 elif isinstance(t, ast.Attribute) and isinstance(t.value, ast.Subscript) and buffer_attr(t.value.value) == attr:
                     out.append((n, norm(t.value), t.attr))
     return out
+
+
+def buffer_once(ctx, chk, rule: str = "BUFFER-ONCE") -> None:
+    """Whatever is parked must still be there at the node's next wake: the buffer object itself is never replaced."""
+    chk.rule(rule, "the gateway's sleep buffer is created once, by Gateway.__init__ (directly, or in a private helper that only __init__ calls), and never re-bound afterwards: no version report, reconnect or other event can drop every parked command by replacing the buffer object")
+    n = 0
+    for f in ctx.prog.all_functions():
+        for node in ctx.own_nodes(f):
+            if not isinstance(node, (ast.Assign, ast.AnnAssign, ast.AugAssign)):
+                continue
+            targets = node.targets if isinstance(node, ast.Assign) else [node.target]
+            for t in targets:
+                if not (isinstance(t, ast.Attribute) and t.attr == "_message_buffer"):
+                    continue
+                n += 1
+                chk.instance(rule)
+                key = f"{f.fq}::{norm(node)[:60]}"
+                ok = f.name == "__init__"
+                if not ok and f.cls is not None and f.name.startswith("_") and not f.name.startswith("__"):
+                    callers = [g_ for g_ in ctx.prog.all_functions() if g_ is not f and any(isinstance(x, ast.Attribute) and x.attr == f.name for x in ctx.own_nodes(g_))]
+                    ok = bool(callers) and all(g_.name == "__init__" and g_.cls is f.cls for g_ in callers)
+                if ok:
+                    chk.ok(rule, key, "the buffer is created during construction only", f"{f.module.relpath}:{node.lineno}", sample=n <= 1)
+                else:
+                    chk.refute(rule, key, f"{f.qualname} re-binds the sleep buffer (`{norm(node)[:60]}`): every command parked for a sleeping node at that moment is silently dropped and never written at the node's wake", f"{f.module.relpath}:{node.lineno}")
+    chk.floor(rule, "bindings of the sleep buffer", n, 1)
